@@ -3,6 +3,8 @@
  *  {"t":"string","s":[bytes]} {"t":"array","e":[..]} {"t":"object","m":[{"k":[bytes],"v":..}]}  {"t":"none"} */
 #include "vhrt.h"
 #include "vh_dump.h"
+#include <stdlib.h>
+#include <string.h>
 #include <inttypes.h>
 #include <stdio.h>
 #include <string.h>
@@ -71,6 +73,15 @@ void dump_value(const char *key, json_object *o)
 			ev_bytes("fmt", fb, (size_t)fl);
 			const char *ud = (const char *)json_object_get_userdata(o);
 			ev_bytes("ret", ud ? ud : "", ud ? strlen(ud) : 0);
+			/* the retained text (if any) still denotes the node's value: strtod of it gives the same bit pattern
+			 * (sign of zero included); NaN / infinities compare by class */
+			int retok = 1;
+			if (ud)
+			{
+				double dv = json_object_get_double(o), rv = strtod(ud, NULL);
+				retok = (dv != dv) ? (rv != rv) : (memcmp(&dv, &rv, sizeof dv) == 0);
+			}
+			ev_bool("retok", retok);
 		}
 		break;
 	}
